@@ -9,6 +9,7 @@ DIRS = ["C06_Typed"]
 TRUSTED = [
     "hand-written model of kvstore/typedvalue.go (Model.v) and kvstore/typedstore.go (StoreModel.v), tied to the code by the correspondence check only",
     "the KVStore below is modelled as the raw bytes under one key (TypedValue) / a sorted association list (TypedStore); faults are injected by a KVStore wrapper and by the codecs in the harness, one script position per call",
+    "error classification: the model works on error CLASSES (this call fails / key absent / callback says not-changed or fails); the code derives them with ierrors.Is. Premise, stated as ErrTree.contains (depth-first search of the error tree over Unwrap() error and Unwrap() []error): 'ierrors.Is finds a sentinel anywhere in the error tree, and nothing else'. Under it the class of an error depends only on the leaves of its tree, not on its shape (C06_is_finds_anywhere, C06_class_by_membership, C06_class_shape_independent, C06_harness_shapes). The premise is tied to the code on every run: (a) subcommand errs builds error trees through every ierrors constructor and compares ierrors.Is/As/Unwrap with the standard library, with a reference walk over the tree description and with ErrTree.contains/first_tag in Coq; (b) in the histories every error handed to TypedValue/TypedStore (store's ErrKeyNotFound, injected faults, codec failures, the callbacks' ErrTypedValueNotChanged and failures) is presented in one of 19 shapes (bare, wrapped, Join/Chain/Wrapf-with-error/double-%w trees, next to errors with a sentinel's text) and results are judged by class only",
     "the RWMutex itself is not modelled: calls are atomic steps (Get/Has = optional lock-free fast phase + full slow phase). Adequacy of that is proved from the premise 'every store call, codec call, callback and cache assignment of an operation happens while the operation holds the mutex' (C06_locked_calls_serial; C06_refuted_narrowed_lock shows the premise is needed); the premise is checked on the code by the boundary-intruder schedules and free-running runs, not proved",
 ]
 
@@ -22,14 +23,17 @@ def run(ctx):
             ctx.seed += 1000
             ctx.corr(hx, ["hist", "--n", "1200", "--len", "40"], cases_name="cases%d.v" % k)
         ctx.seed -= 5000
+        ctx.corr(hx, ["errs", "--n", "4000"], cases_name="errs.v")
         ctx.corr(hx, ["conc", "--runs", "200"], cases_name="conc.v")
         ctx.corr(hx, ["win", "--lists", "40"], cases_name="win.v")
     else:
         ctx.corr(hx, ["hist", "--n", "600", "--len", "25"])
+        ctx.corr(hx, ["errs", "--n", "600"], cases_name="errs.v")
         ctx.corr(hx, ["conc", "--runs", "30"], cases_name="conc.v")
         ctx.corr(hx, ["win", "--lists", "6"], cases_name="win.v")
     ctx.assumptions += [
         "codec premise of the theorems: enc v = Some b -> dec b = Some v (decode inverts a successful encode); codecs and callbacks are otherwise arbitrary functions, their failures arbitrary (fault script + own failures)",
+        "what an error means is decided by sentinel membership in its error tree (errors.Is semantics, Go >= 1.20 multi-error trees included): an error whose tree holds ErrKeyNotFound (from kv.Get) IS 'key absent', one that holds ErrTypedValueNotChanged (from the compute function) IS 'keep the current value', whatever else is joined to it; errors that merely carry a sentinel's text are failures",
         "an injected fault makes the call return an error without side effect (a store call that applies the write and then reports an error is outside this property)",
         "nobody writes the raw key of a TypedValue behind its back (single owner of the key); values are copied by assignment (V without shared mutable structure)",
         "model fact the atomic-step theorems rest on: operations on one TypedValue are atomic w.r.t. each other BECAUSE all store calls, codec calls, the compute callback and the cache assignments of an operation happen under its mutex (Coq: C06_locked_calls_serial proves serialisation from exactly this premise for all schedules; C06_refuted_narrowed_lock: false without it). Checked on the implementation by starting a second operation (Set/Delete/Compute/Get/Has) at EVERY store-call, codec-call and callback boundary of a first caller's operations (bounded wait 20 ms; with the premise the second caller blocks on the mutex), judged by serialisability of all results + final raw bytes against the sequential raw-key reference and by cache == store afterwards; and by free-running runs (no lost update, no unwritten value read)",
@@ -48,6 +52,13 @@ def replay(ctx, obj):
         json.dump(case, open(path, "w"))
         print(json.dumps(case))
         ctx.corr(hx, ["win", "--case", path], cases_name="replay.v")
+        return ctx.finish(LEVEL)
+    if isinstance(case, dict) and case.get("kind") == "err":
+        # an error tree (how it is built through ierrors): ierrors.Is/As/Unwrap vs the standard library, the reference walk and ErrTree
+        path = os.path.join(ctx.build, "replay_case.json")
+        json.dump(case, open(path, "w"))
+        print(json.dumps(case))
+        ctx.corr(hx, ["errs", "--case", path], cases_name="replay.v")
         return ctx.finish(LEVEL)
     if not (isinstance(case, dict) and case.get("kind") in ("tv", "ts")):
         print("no sequential case in the replay file; re-running the check")
